@@ -28,6 +28,7 @@ type peStep struct {
 	R2   string `json:"r2"`
 	P    string `json:"p"`
 	P2   string `json:"p2"`
+	K    string `json:"k"`
 	DL   string `json:"dl"`
 	DC   string `json:"dc"`
 	M    string `json:"m"`
@@ -160,10 +161,14 @@ func runPE(g *groups.Info, bhs [][]peStep, cfg Config, res *core.Result) int {
 	vkey := func(op, kind string) string { return fmt.Sprintf("%s/%s/%s/%s", cfg.Prop, g.Name, op, kind) }
 	for j, bh := range bhs {
 		id := fmt.Sprint(j)
+		if cfg.LastOp != "" && bh[len(bh)-1].Op != cfg.LastOp {
+			continue
+		}
 		if core.Hash64(fmt.Sprint(cfg.Seed), g.Name, id) > keep {
 			continue
 		}
 		st := map[string]*advStream{}
+		kt := map[string]kyber.Scalar{}
 		pt := map[string]kyber.Point{}
 		data := map[string][]byte{} // expected Data() per point register (nil = unspecified)
 		ok := true
@@ -188,6 +193,39 @@ func runPE(g *groups.Info, bhs [][]peStep, cfg Config, res *core.Result) int {
 					st[s.R] = newAdv(cfg.Seed, s.Seed, s.Kind, plen)
 				case "copystream":
 					st[s.R] = st[s.R2].clone()
+				case "spick":
+					// Scalar.Pick: in [0,q), a function of the bytes drawn (C02)
+					k := g.Group.Scalar()
+					if ret := k.Pick(st[s.R]); ret != kyber.Scalar(k) {
+						res.Violate(vkey("spick", "return-not-receiver"), "Scalar.Pick returned an object other than its receiver", detail(i, nil))
+					}
+					kt[s.K] = k
+					enc, err := k.MarshalBinary()
+					res.Eval(g.Name + "|" + id + "|" + fmt.Sprint(i))
+					if err != nil || len(enc) != g.Group.ScalarLen() || bytesToInt(g, enc).Cmp(g.Order) >= 0 {
+						res.Violate(vkey("spick", "out-of-range"), fmt.Sprintf("Scalar.Pick on %s returned a value outside [0,q) or a malformed encoding", g.Name), detail(i, map[string]any{"enc": hex.EncodeToString(enc)}))
+						ok = false
+						return
+					}
+					other := "k1"
+					if s.K == "k1" {
+						other = "k2"
+					}
+					if o, has := kt[other]; has && s.Obs != nil {
+						eq := k.Equal(o)
+						switch s.Obs.Rel {
+						case "equal":
+							if !eq {
+								res.Violate(vkey("spick", "not-deterministic"), fmt.Sprintf("Scalar.Pick on %s: same bytes drawn, different scalars", g.Name), detail(i, nil))
+								ok = false
+							}
+						case "differ":
+							if eq {
+								res.Violate(vkey("spick", "collision"), fmt.Sprintf("Scalar.Pick on %s: different streams gave the same scalar", g.Name), detail(i, nil))
+								ok = false
+							}
+						}
+					}
 				case "pick":
 					if !g.CanPick {
 						res.Skip("cap:pick:" + g.Name)
